@@ -147,6 +147,8 @@ class Interp:
         v = self.ev(e.operand)
         if isinstance(e.op, ast.USub) and isinstance(v, int):
             return -v
+        if isinstance(e.op, ast.Not) and isinstance(v, bool):
+            return not v
         raise Unknown("unary")
 
     def ev_Compare(self, e):
